@@ -31,6 +31,13 @@ def gen_cases(tier, seed):
         for k in range(hostile.zoo_size()):
             c0 = dict(cases[(k * 5 + rep) % len(cases)])
             cases.append({"family": "hostile", "nseed": int(seed * 1000003 + 970000 + rep * 1000 + k), "cfg": c0["cfg"], "hkind": "zoo", "hpick": k})
+    # an accelerated MEAN without keep_dims whose (rank-reduced) result leaves the Ethos-U operator: as a graph output and as the operand of a CPU operator
+    from vv import netgen
+
+    mean_idx = netgen.APPROX_TAILS.index("mean")
+    for k in range(12 if tier == "quick" else 150):
+        c0 = dict(cases[(k * 13) % len(cases)])
+        cases.append({"family": "approx-tail", "nseed": int((seed * 1009 + k) * len(netgen.APPROX_TAILS) + mean_idx), "cfg": c0["cfg"]})
     # quantisation tables that are present but incomplete or odd (kinds 5 and 13 of the hostile generator): interface tensors and CPU operands must keep them verbatim
     for k in range(36 if tier == "quick" else 600):
         c0 = dict(cases[(k * 11) % len(cases)])
